@@ -263,22 +263,40 @@ impl Transaction {
 		} = opts;
 
 		// Get the current visible sequence number as our start point.
-		let start_seq_num = core.seq_num();
-		#[cfg(surrealkv_verif)]
-		crate::verif::gate("txn.begin.loaded", &[("start", start_seq_num)]);
+		let mut start_seq_num = core.seq_num();
 
-		// Register this txn's start_seq with the GC watermark tracker.
-		// Both read-write and write-only txns register here (write-only txns
-		// don't get a Snapshot, so SnapshotTracker alone wouldn't see them).
-		// See registration-race proof in the plan: visible_seq_num is
-		// strictly monotonic, so this load-then-register sequence cannot
-		// cause GC to advance past our start_seq.
-		let txn_guard = Some(core.active_txn_tracker.register(start_seq_num));
+		// The horizon only protects our reads once it is registered: a compaction
+		// that collected the registered snapshots between the load above and the
+		// registration below does not know about us, and may discard a version we
+		// need if a newer commit has become visible meanwhile. So after
+		// registering, check that the horizon is still the current one; if not,
+		// start over from the newer horizon (the transaction simply begins a
+		// little later). Once the check passes, everything such a compaction could
+		// have superseded is superseded by a version we see as well.
+		let (txn_guard, snapshot) = loop {
+			#[cfg(surrealkv_verif)]
+			crate::verif::gate("txn.begin.loaded", &[("start", start_seq_num)]);
 
-		let mut snapshot = None;
-		if !mode.is_write_only() {
-			snapshot = Some(Snapshot::new(Arc::clone(&core), start_seq_num));
-		}
+			// Register this txn's start_seq with the GC watermark tracker.
+			// Both read-write and write-only txns register here (write-only txns
+			// don't get a Snapshot, so SnapshotTracker alone wouldn't see them).
+			// See registration-race proof in the plan: visible_seq_num is
+			// strictly monotonic, so this load-then-register sequence cannot
+			// cause GC to advance past our start_seq.
+			let txn_guard = core.active_txn_tracker.register(start_seq_num);
+
+			let mut snapshot = None;
+			if !mode.is_write_only() {
+				snapshot = Some(Snapshot::new(Arc::clone(&core), start_seq_num));
+			}
+
+			let current = core.seq_num();
+			if current == start_seq_num || snapshot.is_none() {
+				break (Some(txn_guard), snapshot);
+			}
+			// Dropping `snapshot` and `txn_guard` unregisters the stale horizon.
+			start_seq_num = current;
+		};
 
 		Ok(Self {
 			mode,
